@@ -11,7 +11,7 @@ def verdict(it, cert):
 
 
 def run(out, explore=0):
-    items, certs = L.standard_run(out, "C05", explore or 150, want=("c05",), verdict=verdict, with_multi_start=True)
+    items, certs = L.standard_run(out, "C05", explore or 150, want=("c05",), verdict=verdict, with_multi_start=True, subsets=True)
     # correspondence leg: the printer model (V.Puml.Linearise: networkx dfs_successors, reversed successor order, PATH nodes,
     # operator/event/kill rendering) applied to the PUMLGraph captured at write_puml_string must give exactly the emitted tokens
     if out.coverage.get("discharged"):
